@@ -37,6 +37,7 @@ def slice_check(case, text, ast):
     L = source_lines(text)
     n = [0]
     hard = [False]
+    first_hard = {}   # line -> index of its first non-BMP character / tab / backslash (computed once per line: rows can have thousands of cells)
 
     def at(loc, what):
         line, col = loc.get("line"), loc.get("column")
@@ -44,8 +45,11 @@ def slice_check(case, text, ast):
             raise Violation(case, "%s has location %r outside the source (%d lines)" % (what, loc, len(L)))
         n[0] += 1
         src = L[line - 1]
-        if col > 1 and any(ord(c) > 0xFFFF or c == "\t" or c == "\\" for c in src[:col - 1]):
-            hard[0] = True
+        if col > 1 and not hard[0]:
+            if line not in first_hard:
+                first_hard[line] = next((k_ for k_, c in enumerate(src) if ord(c) > 0xFFFF or c == "\t" or c == "\\"), len(src))
+            if first_hard[line] < col - 1:
+                hard[0] = True
         return src, col - 1
 
     def keyword_node(node, what, colon=True):
@@ -66,6 +70,8 @@ def slice_check(case, text, ast):
         src, i = at(r["location"], "table row")
         if src[i:i + 1] != "|" or src[:i].strip() != "":
             raise Violation(case, "table row at %r: source there reads %r" % (r["location"], src[i:i + 3]))
+        row_units = split_units(src)                       # once per row (rows can have thousands of cells)
+        unit_at = {off: k_ for k_, (_, off) in enumerate(row_units)}
         for c in r["cells"]:
             if c["location"]["line"] != r["location"]["line"]:
                 raise Violation(case, "cell on another line than its row: %r" % (c,))
@@ -77,7 +83,10 @@ def slice_check(case, text, ast):
             if k == 0 or src[k - 1] != "|":
                 raise Violation(case, "cell %r at %r does not start right after a pipe and blanks: %r" % (c["value"], c["location"], src[:j + 1]))
             # unescape from the column up to the next unescaped pipe, trim -> the value
-            units = [u for u, _ in split_units(src[j:])]
+            if j in unit_at:
+                units = (row_units[k_][0] for k_ in range(unit_at[j], len(row_units)))
+            else:
+                units = (u for u, _ in split_units(src[j:]))   # the column points into the middle of an escape pair: read from there
             buf = ""
             closed = False
             for u in units:
